@@ -26,7 +26,7 @@ CHECKS = {
  "C18": ("exploration", "seeded URL x settings combinations through the real with_settings (async on a paused clock, sync where no timer is involved) against harness-owned loopback listeners and Unix sockets: which endpoint is reached or which error class is returned is compared with the statement (default ports 389/636, missing host = localhost, percent-decoded ldapi path, stream type must match the scheme, timeout bounds StartTLS / TLS establishment against a stalling peer); any panic is a violation. Same limits as C17", "6 C18", "scripted endpoints and simulated clock around the real establishment code"),
  "C04": ("fault_enumeration", "per seeded exchange a fault-free reference run fixes the byte lengths and the decision trace; then EOF / reset at every response byte boundary, write error / server close at every request byte boundary, every flush, an undecodable frame before every response frame, unbind and handle drop at every step; each run is checked for termination of every call and of drive(), no invented values, survival of fully delivered replies (exactly, for read-side faults), immediate failure of later operations, and transport close on unbind / last drop; worker processes are supervised so that an in-poll spin or crash is caught", "6 C04", "fault enumeration over every byte boundary of seeded exchanges, replaying the reference schedule up to the fault"),
  "C12": ("exploration", "seeded TIME scenarios with replies and search items before / at / after deadlines on a simulated clock; every call's value and virtual completion time is compared with a timing model computed from the recorded delivery times (ties are either-outcome); late replies must reach nobody; tables must be clean at quiescent checkpoints", "6 C12", "seeded schedule and timing search on a simulated clock with a timing reference model"),
- "C05": ("exploration", "seeded IDS scenarios position the ID counter at the upper end with arbitrary IDs in use and move it to just below IDs of searches that are still outstanding; server-side check of range / pre-seeded / still-outstanding IDs on every request, table snapshots (hook H4) around every allocation for the wrap-around rule; H3 yield makes wire order differ from allocation order; MUX runs are checked server-side as a by-product", "6 C05", "seeded schedule and history search with inline invariants at the scripted server and at allocation snapshots"),
+ "C05": ("exploration", "two engines. (1) ldapsim: seeded IDS scenarios position the ID counter at the upper end with arbitrary IDs in use and move it to just below IDs of searches that are still outstanding; server-side check of range / pre-seeded / still-outstanding IDs on every request, table snapshots (hook H4) around every allocation for the wrap-around rule; H3 yield makes wire order differ from allocation order; MUX runs are checked server-side as a by-product. (2) ldap3-threads: 2-4 scheduler-controlled threads allocate IDs through cloned handles with the table's mutex under the scheduler (hook H6), seeded random and PCT schedules, counter at the wrap-around point with pre-seeded IDs; duplicates, out-of-range and in-use IDs are assertion failures with a persisted schedule", "6 C05", "seeded schedule and history search with inline invariants at the scripted server and at allocation snapshots"),
 }
 PLANNED = []
 
@@ -53,12 +53,12 @@ def main():
         "setup_cmd": "cd /verif && ./check build",
         "hooks": {
             "guard": "--cfg ldap3_verif",
-            "enable": "RUSTFLAGS='--cfg ldap3_verif --cfg tokio_unstable' (set by /verif/check and /verif/sim/.cargo/config.toml); the simulator depends on /repo by path, so every build is from the working tree",
+            "enable": "RUSTFLAGS='--cfg ldap3_verif --cfg tokio_unstable' (set by /verif/check and /verif/sim/.cargo/config.toml); the simulator depends on /repo by path, so every build is from the working tree. The thread-level harness /verif/threads additionally sets --cfg ldap3_verif_shuttle (hook H6 swaps the ID table's mutex for the thread scheduler's) and builds /repo/src through a shadow manifest that adds the scheduler crate, so /repo's own manifest and lock file stay untouched",
             "baseline_off_cmd": "cd /repo && cargo test --workspace --no-fail-fast --offline",
             "source_commits": list(reversed(hooks)),
             "add_only": True,
         },
-        "engines": [{"name":"ldapsim","path":"/verif/sim","serves_properties":sorted(CHECKS),"kind_free_text":"deterministic simulator: own executor on a paused, seeded current-thread tokio runtime without I/O driver; in-memory transport with fault injection; scripted LDAP server with an independent BER codec; reference-model oracles over recorded histories; supervised worker processes; delta-debugging minimiser; replay files"}],
+        "engines": [{"name":"ldap3-threads","path":"/verif/threads","serves_properties":["C05"],"kind_free_text":"thread-level deterministic simulation (shuttle seeded random and PCT schedulers, persisted replayable schedules) of the message ID allocator across cloned handles"},{"name":"ldapsim","path":"/verif/sim","serves_properties":sorted(CHECKS),"kind_free_text":"deterministic simulator: own executor on a paused, seeded current-thread tokio runtime without I/O driver; in-memory transport with fault injection; scripted LDAP server with an independent BER codec; reference-model oracles over recorded histories; supervised worker processes; delta-debugging minimiser; replay files"}],
         "checks": checks,
         "not_applicable": na,
         "notes": "see DESIGN.md; known findings and fixed defects: known_findings.json",
